@@ -52,6 +52,15 @@ pub struct OutSpec {
     pub kind: OutKind,
     #[serde(default)]
     pub promise: Option<Promise>,
+    /// number of defer_tick on the path from the inputs (generated tick programs; C30 window oracle)
+    #[serde(default)]
+    pub delay: u32,
+    /// this output is `defer_tick()` of the named output (C30 self-check: shifted by one tick)
+    #[serde(default)]
+    pub shift_of: Option<String>,
+    /// operator labels on the dependency slice of this output (generated programs; signatures)
+    #[serde(default)]
+    pub slice: Vec<String>,
 }
 
 #[derive(Clone, Debug, Serialize, Deserialize)]
@@ -80,6 +89,9 @@ pub struct Traits {
     pub shared: bool,
     /// free-form class labels
     pub classes: Vec<String>,
+    /// constructs behind confirmed findings that the generator avoided for this program
+    #[serde(default)]
+    pub avoided: Vec<String>,
 }
 
 #[derive(Clone, Debug, Serialize, Deserialize)]
@@ -95,6 +107,13 @@ pub struct ProgSpec {
     pub outputs: Vec<OutSpec>,
     #[serde(default)]
     pub traits: Traits,
+    /// extra locations the program function takes after the first process: "p2" (a second
+    /// process) and/or "c" (a cluster); such programs are only compiled (C41), never run
+    #[serde(default)]
+    pub locs: Vec<String>,
+    /// compile only: the runner gets a stub instead of driving glue
+    #[serde(default)]
+    pub no_run: bool,
 }
 
 impl ProgSpec {
